@@ -54,6 +54,8 @@ class ConnInfo:
         self.history: List[Any] = []
         self.peer: Optional[H2Peer] = None
         self.pipelined_pair = False
+        self.reset_tags: List[bytes] = []
+        self.reset_offsets: Dict[bytes, int] = {}
 
 
 def run(tape: Tape, params: dict) -> Outcome:
@@ -170,15 +172,19 @@ def run(tape: Tape, params: dict) -> Outcome:
         else:
             peer = H2Peer()
             info.peer = peer
-            steps.append(("send", peer.preface()))
             # a prior-knowledge connection that never opens a stream is idle from the start
             nostreams = tape.chance(1, 6, "h2.nostreams")
+            # the connection may also begin as an HTTP/1.1 request that upgrades to h2c (served as stream 1)
+            h2c = (not nostreams) and tape.chance(1, 4, "h2.opening.h2c")
+            sink: Any = peer
             if nostreams:
+                steps.append(("send", peer.preface()))
                 info.history.append(("no-streams",))
             for pi in range(0 if nostreams else 1 + nphase0):
                 tape.span_begin(ppos)
                 tag = b"c%dp%d" % (ci, pi)
-                kind = tape.weighted([4, 2, 2, 1], "phase.kind2")  # ok, slow, badhost, two concurrent
+                # ok, slow, badhost, two concurrent, unusable :path (400 made by the protocol), reset by the client
+                kind = tape.weighted([8, 4, 4, 2, 2, 2], "phase.kind2")
                 pause = tape.choice(grid, "phase.pause")
                 sids = [peer.new_stream()]
                 tags = [tag]
@@ -196,26 +202,66 @@ def run(tape: Tape, params: dict) -> Outcome:
                     d = tape.choice([0.05, T + 0.25], "phase.pairslow")
                     host.programs[tag] = [("recv_all",), ("pause", ("sleep", d)), ("respond", 200, [], [b"first"])]
                     info.history.append(("two-streams", d, pause))
+                elif kind == 4:
+                    info.history.append(("badpath", pause))
+                elif kind == 5:
+                    # the client gives up on the only open stream: RST_STREAM while the application is at work
+                    d = tape.choice([0.05, T / 2, T + 0.25], "phase.rstslow")
+                    rst_after = tape.choice([0.0, 0.01, T / 4], "phase.rstafter")
+                    after_reset = tape.choice(["respond-late", "return-on-disconnect"], "phase.rstapp")
+                    if after_reset == "respond-late":
+                        host.programs[tag] = [("recv_all",), ("pause", ("sleep", d)), ("respond", 200, [], [b"late"])]
+                    else:
+                        host.programs[tag] = [("recv_all",), ("wait_disconnect",), ("return",)]
+                    info.history.append(("client-reset", after_reset, d, rst_after, pause))
+                    info.reset_tags.append(tag)
                 else:
                     info.history.append(("ok", pause))
-                if kind == 2:
+                if kind in (2, 4):
                     info.error_tags += tags
                 else:
                     info.tags += tags
+                path_suffix = b"-caf\xc3\xa9" if kind == 4 else b""
 
                 def open_streams(sc: Script, sids: List[int] = sids, tags: List[bytes] = tags,
-                                 hostname: bytes = hostname, peer: H2Peer = peer) -> None:
+                                 hostname: bytes = hostname, peer: H2Peer = peer, path_suffix: bytes = path_suffix) -> None:
                     for sid, t in zip(sids, tags):
                         sc.conn.client.send(peer.headers(sid, [
                             (b":method", b"GET"), (b":scheme", b"http"), (b":authority", hostname),
-                            (b":path", b"/" + t), (b"x-tag", t)], end_stream=True))
+                            (b":path", b"/" + t + path_suffix), (b"x-tag", t)], end_stream=True))
 
-                steps.append(("call", open_streams))
-                steps.append(("wait", (lambda sids, peer: lambda sc: all(peer.stream_done(s) for s in sids))(sids, peer), 60.0))
+                if pi == 0 and h2c and kind in (0, 1):
+                    from ..peers.h2 import H2cUpgradeParser
+
+                    world.sim.probe("c07.h2c_opening")
+                    peer.open_stream(sids[0])
+                    steps.append(("send", _get(tag, extra=b"Connection: Upgrade, HTTP2-Settings\r\nUpgrade: h2c\r\n"
+                                               b"HTTP2-Settings: " + peer.settings_payload_b64() + b"\r\n")
+                                  + peer.preface()))
+                    sink = H2cUpgradeParser(peer)
+                    info.history.append(("h2c-upgrade",))
+                else:
+                    if pi == 0:
+                        steps.append(("send", peer.preface()))
+                    steps.append(("call", open_streams))
+                if kind == 5:
+                    def reset_it(sc: Script, sid: int = sids[0], peer: H2Peer = peer, tag: bytes = tag,
+                                 info: ConnInfo = info) -> None:
+                        if not sc.ended and not peer.stream_done(sid):
+                            sc.conn.client.send(peer.rst_stream(sid, 8))
+                            info.reset_offsets[tag] = len(sc.conn.client.sent)
+                            world.sim.probe("c07.h2.client_reset_only_stream")
+
+                    if rst_after:
+                        steps.append(("sleep", rst_after))
+                    steps.append(("call", reset_it))
+                    steps.append(("sleep", 0.01))
+                else:
+                    steps.append(("wait", (lambda sids, peer: lambda sc: all(peer.stream_done(s) for s in sids))(sids, peer), 60.0))
                 if pause:
                     steps.append(("sleep", pause))
                 tape.span_end()
-            script = Script(world, steps, peer, setup=setup)
+            script = Script(world, steps, sink, setup=setup)
         # how the history ends: silence (idle expiry), peer loss, or worker shutdown while idle
         ending = tape.weighted([4, 2, 2, 2, 2, 1], "conn.ending")
         if ending == 0:
@@ -296,10 +342,40 @@ def run(tape: Tape, params: dict) -> Outcome:
 
 
 # ---------------------------------------------------------------------------------------------
-def _busy_intervals(host: AppHost, info: ConnInfo) -> List[Tuple[float, float]]:
+def _reset_times(sim: Any, info: ConnInfo, conn: Any) -> Dict[bytes, float]:
+    """When the server read the client's RST_STREAM of a stream (the request is over from then on)."""
+    times: Dict[bytes, float] = {}
+    if not info.reset_offsets:
+        return times
+    cum = 0
+    marks = []
+    for e in sim.log:
+        if e[2] == "s.recv" and e[3] == conn.id and e[4] > 0:
+            cum += e[4]
+            marks.append((cum, e[1]))
+    for tag, off in info.reset_offsets.items():
+        for c, t in marks:
+            if c >= off:
+                times[tag] = t
+                break
+    return times
+
+
+def _busy_intervals(host: AppHost, info: ConnInfo, resets: Optional[Dict[bytes, float]] = None) -> List[Tuple[float, float]]:
     out = []
     for inst in host.instances:
         if inst.tag in info.tags:
+            if resets and inst.tag in resets and resets[inst.tag] < inst.start_time:
+                continue  # over before the application was even started
+            if resets and inst.tag in resets:
+                # reset by the client: nothing is in progress once the server has read the RST_STREAM
+                end = None
+                for entry in inst.sends:
+                    m = entry[2]
+                    if m.get("type") == "http.response.body" and not m.get("more_body", False) and entry[5] is not None:
+                        end = entry[5]
+                out.append((inst.start_time, min(resets[inst.tag], end if end is not None else float("inf"))))
+                continue
             end = None
             for entry in inst.sends:
                 m = entry[2]
@@ -325,7 +401,7 @@ def _check(world: World, host: AppHost, conns: List[ConnInfo], T: float, out: Ou
         t_close = srv.closed_at
         t_err = next((e[1] for e in sim.log if e[2] == "s.senderr" and e[3] == conn.id), None)
         t_loss = min([t for t in (srv.fin_arrived_at, srv.rst_arrived_at, t_err) if t is not None], default=None)
-        busy = _busy_intervals(host, info)
+        busy = _busy_intervals(host, info, _reset_times(sim, info, conn))
         if t_close is not None:
             # a request whose head completes in the very instant the idle timer fires has no defined
             # order with the close; instances that only start at or after the close are not "in progress"
@@ -493,7 +569,7 @@ def _error_response_times(info: ConnInfo, conn: Any) -> List[float]:
     else:
         peer = info.peer
         for sid, st in peer.streams.items():
-            if st.status == 404 and st.end_wire is not None:
+            if st.status in (404, 400) and st.end_wire is not None:
                 for _, t, cum in conn.server.send_marks:
                     if cum >= st.end_wire:
                         times.append(t)
